@@ -3,9 +3,8 @@ CONSTANTS
   MaxEntry = 4
   BufSize = 12
   DepthLimit = 100
-  EmptyFileSeek = {"ioerr", "tooEarly"}
+  EmptyGuard = TRUE
   MaxLines = 3
   MinLen = 1
   MaxLen = 3
-  SkipEmpty = TRUE
 PROPERTY Terminates
